@@ -115,13 +115,13 @@ Each sub-agent received only the text of one property and its own scratch git wo
 for a small change that breaks the property, compiles, keeps the 128 passing tests passing and needs something specific to manifest, with a
 demonstration. Each change was confirmed here (demo passes on the clean tree, fails with the patch, no passing test lost — `tools/seed_verify.py`)
 and is kept as `seeded/<id>/{patch.diff, demo.py, notes.md, meta.json}`; none was ever committed to `/repo` (applied with `git apply`, checks run,
-`git checkout -- .`). 52 faults: two per property in a first round, and a second round of two more for C01, C03, C06, C10, C16, C20 (ids `-c`, `-d`) in which the sub-agents were
-additionally told which code sites had been used before. **No request was refused** by the permission system or a safety layer at any step.
+`git checkout -- .`). 63 faults: two per property in a first round, and a second round (ids `-c`, `-d`) for C01, C03, C04, C05, C06, C07, C08, C10, C11, C15, C16, C20 in which the sub-agents were
+additionally told which code sites had been used before (one second-round fault, a re-discovery of C01-d that also tripped a flaky test, was discarded). **No request was refused** by the permission system or a safety layer at any step.
 
 SEEDTABLE
 
-Thirteen faults were missed on the first run by the check of their own property (bold above); in every case the generator did not reach the specific
-trigger — the oracle was never at fault. The checks were strengthened (last column) and all 52 are now detected by the check of their own property;
+Sixteen faults were missed on the first run by the check of their own property (bold above): in fifteen cases the generator did not reach the specific
+trigger, in one (C05-c) the faulty reader crashed the node process and the check called that an infrastructure error — the oracles themselves were never at fault. The checks were strengthened (last column) and all 63 are now detected by the check of their own property;
 `tools/reseed_all.py` re-applies every stored fault and re-runs its check (regression of the mutation corpus).
 
 ### 0.6 What the tooling could not do
